@@ -156,10 +156,13 @@ def init_table_rules(repo, res):
     pool = [s for s in ast.walk(g.node) if isinstance(s, (ast.Assign, ast.AugAssign))]
     expect_stmt(res, 'D1', g, 'finite_mask = ' + nf_text('~np.isfinite(image)'), 'non-finite pixels flagged', pool)
     expect_stmt(res, 'D1', g, 'finite_mask BitOr= mask', 'union with the input mask', pool)
-    expect_stmt(res, 'D1', g, 'mask = finite_mask', 'the union (not the bare input mask) is returned', pool)
-    # every assignment `mask = finite_mask` must be reachable with and without an input mask
+    # the union (not the bare input mask) is returned, with and without an input mask: either `mask` is rebound to the union on
+    # both branches before the single return, or the union itself is what every non-None return hands back
     asg = [s for s in pool if isinstance(s, ast.Assign) and SP.nf_stmt(s) == 'mask = finite_mask']
-    ok = len(asg) == 2
+    rets = [n.value for n in ast.walk(g.node) if isinstance(n, ast.Return) and n.value is not None]
+    direct = bool(rets) and all((isinstance(v, ast.Name) and v.id == 'finite_mask') or (isinstance(v, ast.Constant) and v.value is None)
+                                for v in rets) and any(isinstance(v, ast.Name) for v in rets)
+    ok = len(asg) == 2 or (direct and not asg)
     res.oblige('D1', '_make_mask returns the union on both the mask-given and the no-mask path', ok, nontrivial=True)
     if not ok:
         res.add(Finding('D1', g.fullname, 'mask union returned', g.loc,
